@@ -343,7 +343,11 @@ class C16(Property):
         cases = []
         for _ in range(n):
             k = rng.choice(kinds)
-            cases.append(getattr(self, "_gen_" + k)(rng, tier))
+            c = getattr(self, "_gen_" + k)(rng, tier)
+            # a second instance of the same kind driven alongside (state shared between instances)
+            if c["kind"] in ("window", "safemap", "queue", "ring", "set", "cache") and rng.random() < 0.15:
+                c["twin"] = True
+            cases.append(c)
         # SafeMap histories through several generation switches (tens of thousands of primitive
         # operations each; they are evaluated on cores of their own)
         light = [["write", "mig2", "mig1"], ["write", "mig1", "refill"], ["mig2", "write", "mig1", "refill"]]
@@ -471,7 +475,7 @@ class C16(Property):
         return {"kind": "set", "ignore": rng.random() < 0.4, "ops": ops}
 
     def _gen_cache(self, rng, tier):
-        limit = rng.choice([0, 1, 2, 2, 3, 3, 5])
+        limit = rng.choice([0, 0, -1, 1, 2, 2, 3, 3, 5])
         nkeys = max(2, limit + rng.randint(1, 3))
         ops = []
         for _ in range(rng.randint(10, 70)):
@@ -490,14 +494,15 @@ class C16(Property):
         ks = list(range(nkeys))
         rng.shuffle(ks)
         ops += [["held"]] + [["get", k] for k in ks]          # probe: how many entries are held
-        return {"kind": "cache", "limit": limit, "name": rng.random() < 0.2, "ops": ops}
+        return {"kind": "cache", "limit": limit, "name": rng.random() < 0.2, "force_limit": rng.random() < 0.5, "ops": ops}
 
     def _gen_cachew(self, rng, tier):
         iv, es = self._expiries_ms()
         limit = rng.choice([0, 0, 1, 2, 3])
         nkeys = max(2, limit + rng.randint(0, 2)) if limit else rng.randint(2, 4)
-        sub = rng.random() < 0.08          # include sub-interval expiries (out of the quantifier)
-        pick = lambda: rng.choice(es[1:5] + ([es[0]] if sub else []))
+        # expiries below one wheel interval, zero and negative: the wheel clamps them to one interval
+        sub = rng.random() < 0.3
+        pick = lambda: rng.choice(es[1:5] + ([es[0], 0, 1, -500] if sub else []))
         ops = []
         for _ in range(rng.randint(12, 60)):
             r = rng.random()
@@ -520,7 +525,7 @@ class C16(Property):
         if rng.random() < 0.45:
             ops += self._reset_scenario(rng, iv, es, rng.randrange(nkeys))
         ops += [["tick"]] * rng.randint(0, 3) + [["held"]] + [["get", x] for x in range(nkeys)]
-        return {"kind": "cachew", "limit": limit, "expire_ms": rng.choice(es[1:4]), "ops": ops}
+        return {"kind": "cachew", "limit": limit, "expire_ms": rng.choice(es[1:4] + ([0] if sub else [])), "ops": ops}
 
     def _reset_scenario(self, rng, iv, es, k):
         """Set k; remove it (explicit Del, or let its timer fire); Set k again at once (same or
@@ -583,16 +588,16 @@ class C16(Property):
             if rng.random() < 0.6:
                 ops.append(["reduce", t])
             nb = t0 + ((t - t0) // iv + 1) * iv
-            gap = rng.choice([0, 1, size - 1, size, size + 1, size + 2, 2 * size, 2 * size + 1, 10 * size, 10 * size + 3])
+            gap = rng.choice([0, 1, size - 1, size, size + 1, size + 2, 2 * size, 2 * size + 1, 10 * size, 10 * size + 3,
+                              10 ** 17 // iv if rng.random() < 0.2 else size])
             t = nb + max(0, gap - 1) * iv + rng.choice([-1, 0, 0, 1, rng.randrange(iv)])
             t = max(t, ops[-1][1])
             if rng.random() < 0.4:
                 ops.append(["reduce", t])
         burst(rng.randint(2, 4))
         ops.append(["reduce", t])
-        ops.append(["reduce", t0 + ((t - t0) // iv + 1) * iv])
-        ops.append(["reduce", t0 + ((t - t0) // iv + size) * iv - 1])
-        ops.append(["reduce", t0 + ((t - t0) // iv + size) * iv])
+        for t2 in (t0 + ((t - t0) // iv + 1) * iv, t0 + ((t - t0) // iv + size) * iv - 1, t0 + ((t - t0) // iv + size) * iv):
+            ops.append(["reduce", max(t2, ops[-1][1])])
         c = {"kind": "window", "size": size, "interval": iv, "t0": t0, "ignore": ig, "ops": ops}
         if rng.random() < 0.3:
             c["bucket"] = "sum"
@@ -652,7 +657,7 @@ class C16(Property):
                 total += 1
                 ops.append(["add", v])
             ops.append(["take"])
-        return {"kind": "ring", "size": n, "ops": ops}
+        return {"kind": "ring", "size": n, "ignore": rng.random() < 0.5, "ops": ops}
 
     def _gen_cache_phased(self, rng, tier):
         """limit 1..3: fill; touch in a chosen order (Get / Take hit / overwrite); insert new keys
@@ -666,7 +671,7 @@ class C16(Property):
         def do(o):
             ops.append(o)
             lru.apply(o)
-        val = lambda: rng.randrange(1000)
+        val = lambda: 0 if rng.random() < 0.1 else rng.randrange(1000)
         fresh = lambda: [k for k in range(nkeys) if not lru.has(k)]
         ks = list(range(limit))
         rng.shuffle(ks)
@@ -674,7 +679,7 @@ class C16(Property):
             do(["set", k, val()])
         ops.append(["held"])
         for _ in range(rng.randint(3, 7)):
-            ph = rng.choice(["touch", "evict", "readd", "delset", "fail", "race", "delevict"])
+            ph = rng.choice(["touch", "evict", "readd", "delset", "fail", "race", "delevict", "nested"])
             if ph == "touch":
                 for k in rng.sample(lru.order, rng.randint(1, len(lru.order))) if lru.order else []:
                     do(rng.choice([["get", k], ["take", k, val()], ["set", k, val()], ["take", k, None]]))
@@ -701,6 +706,10 @@ class C16(Property):
             elif ph == "race" and fresh():
                 k = rng.choice(fresh())
                 do(["take_race", k, rng.choice([None, val()]), val()])
+                ops.append(["held"])
+            elif ph == "nested" and len(fresh()) >= 2:
+                k, k2 = rng.sample(fresh(), 2)
+                do(["take_nested", k, rng.choice([None, val(), val()]), k2, val()])
                 ops.append(["held"])
             elif ph == "delevict" and lru.order:
                 do(["del", rng.choice(lru.order + [nkeys + 5])])
@@ -937,7 +946,7 @@ class C16(Property):
         if k == "set":
             return "KSet %s %s" % (clist(sum([self._sops(o) for o in case["ops"]], [])), so)
         if k == "cache":
-            return "KCache %s %s %s" % (cz(case["limit"]), clist(sum([self._ccops(o) for o in case["ops"]], [])), so)
+            return "KCache %s %s %s" % (cz(case["limit"]), clist(self._cache_ops(case["ops"], seen)), so)
         if k == "cache_rt":
             return "KCache %s %s %s" % (cz(case["limit"]), clist(sum([self._ccops(o) for o in self._rt_ops(case, obs)], [])), so)
         if k == "cachew":
@@ -1055,6 +1064,22 @@ class C16(Property):
             return ["SKeysOf %s" % cz(o[1])]
         raise ValueError(o)
 
+    def _cache_ops(self, ops, seen):
+        """take_race / take_nested: whether the scripted inner Set happened (it does not when the
+        Take hits) is reported by the executor as a 4th field of the observation"""
+        it = iter(seen)
+        res = []
+        for o in ops:
+            r = next(it, None) if o[0] in ("get", "take", "take_race", "take_nested", "held", "size") else None
+            ran = bool(r and len(r) > 3 and r[3])
+            if o[0] == "take_race":
+                res += (["CC (CSet %s %s)" % (cz(o[1]), cz(o[3]))] if ran else []) + self._ccops(["take", o[1], o[2]])
+            elif o[0] == "take_nested":
+                res += (["CC (CSet %s %s)" % (cz(o[3]), cz(o[4]))] if ran else []) + self._ccops(["take", o[1], o[2]])
+            else:
+                res += self._ccops(o)
+        return res
+
     def _ccops(self, o):
         t = o[0]
         fetch = lambda f: "None" if f is None else "(Some %s)" % cz(f)
@@ -1066,9 +1091,6 @@ class C16(Property):
             return ["CC (CDel %s)" % cz(o[1])]
         if t == "take":
             return ["CC (CTake %s %s)" % (cz(o[1]), fetch(o[2]))]
-        if t == "take_race":
-            # "another goroutine" stored the key between the Take's miss and its single flight
-            return ["CC (CSet %s %s)" % (cz(o[1]), cz(o[3])), "CC (CTake %s %s)" % (cz(o[1]), fetch(o[2]))]
         if t == "expire":
             return ["CC (CExpire %s)" % cz(o[1])]
         if t == "held":
